@@ -1024,7 +1024,9 @@ class bpch1(bpch_base):
                 (header[7], header[8]) == (first_header[7], first_header[8]) or
                 offset == file_size
             ):
-                if offset == file_size:
+                repeated = ((header[7], header[8]) ==
+                            (first_header[7], first_header[8]))
+                if offset == file_size and not repeated:
                     dim = header[13][::-1]
                     # start = header[14][::-1]
                     dimstr = str(tuple(int(d) for d in dim[:]))
